@@ -314,6 +314,14 @@ func (pc *pCtx) p8Frames(only string) {
 					pc.add(props, fmt.Sprintf("P8/%s/delivered-slice#%d-is-not-reused", name, nEmit),
 						"a slice delivered downstream is not written afterwards: a buffer that is refilled by the loop must be copied before it is delivered", reused == "",
 						"the delivered slice aliases a buffer allocated outside the loop, and "+reused, pc.pos(ins.Pos()))
+					// (f) the storage of a delivered slice is kept for later: a sub-slice of it (long = long[:0]) or the slice
+					// itself reaches, after the delivery, the first argument of an append or a copy - through the loop's
+					// phi, without being re-made first - so the consumer's value is overwritten by the next item
+					if why := appendedAfterDelivery(call, val); why != "" || inLoop(call) {
+						pc.add(props, fmt.Sprintf("P8/%s/delivered-slice#%d-storage-is-not-written-afterwards", name, nEmit),
+							"the storage of a slice delivered downstream is not appended or copied into after the delivery", why == "",
+							why, pc.pos(ins.Pos()))
+					}
 				}
 			}
 		}
@@ -1442,4 +1450,119 @@ func callsClosure(call *ssa.Call, g *ssa.Function) bool {
 		}
 	}
 	return false
+}
+
+// appendedAfterDelivery: value val was handed to the downstream by call; does val, or a sub-slice of it taken after the
+// call, reach the destination operand of an append / copy on a path that starts after the call and does not pass the
+// instruction that makes val afresh? Returns a description, or "".
+func appendedAfterDelivery(call *ssa.Call, val ssa.Value) string {
+	fn := call.Parent()
+	if fn == nil {
+		return ""
+	}
+	val = func() ssa.Value {
+		v := val
+		for i := 0; i < 8; i++ {
+			switch t := v.(type) {
+			case *ssa.ChangeType:
+				v = t.X
+			case *ssa.MakeInterface:
+				v = t.X
+			default:
+				return v
+			}
+		}
+		return v
+	}()
+	var defBlock *ssa.BasicBlock
+	if di, ok := val.(ssa.Instruction); ok {
+		defBlock = di.Block()
+	}
+	callBlock := call.Block()
+	idxIn := func(b *ssa.BasicBlock, ins ssa.Instruction) int {
+		for i, x := range b.Instrs {
+			if x == ins {
+				return i
+			}
+		}
+		return -1
+	}
+	callIdx := idxIn(callBlock, call)
+	// blocks reached after the call, not going through the block that makes the value afresh
+	R := map[*ssa.BasicBlock]bool{}
+	work := append([]*ssa.BasicBlock{}, callBlock.Succs...)
+	for len(work) > 0 {
+		b := work[0]
+		work = work[1:]
+		if R[b] || (b == defBlock && b != callBlock) {
+			continue
+		}
+		if b == callBlock {
+			// back at the delivering block through a loop: the value is made afresh if it is defined here before the call
+			if defBlock == callBlock {
+				continue
+			}
+		}
+		R[b] = true
+		work = append(work, b.Succs...)
+	}
+	after := func(ins ssa.Instruction) bool {
+		b := ins.Block()
+		if b == callBlock {
+			return idxIn(b, ins) > callIdx || R[b]
+		}
+		return R[b]
+	}
+	derived := map[ssa.Value]bool{val: true}
+	for changed := true; changed; {
+		changed = false
+		for _, b := range fn.Blocks {
+			for _, ins := range b.Instrs {
+				switch t := ins.(type) {
+				case *ssa.Slice:
+					if derived[t.X] && !derived[t] && after(t) && t.Max == nil {
+						derived[t] = true
+						changed = true
+					}
+				case *ssa.Phi:
+					if derived[t] {
+						continue
+					}
+					for i, e := range t.Edges {
+						pred := b.Preds[i]
+						if derived[e] && (R[pred] || pred == callBlock) {
+							derived[t] = true
+							changed = true
+						}
+					}
+				}
+			}
+		}
+	}
+	for _, b := range fn.Blocks {
+		for _, ins := range b.Instrs {
+			c, ok := ins.(*ssa.Call)
+			if !ok {
+				continue
+			}
+			bi, ok := c.Common().Value.(*ssa.Builtin)
+			if !ok || len(c.Common().Args) == 0 || (bi.Name() != "append" && bi.Name() != "copy") {
+				continue
+			}
+			dst := c.Common().Args[0]
+			if !derived[dst] {
+				continue
+			}
+			if dst == val && !after(c) {
+				continue
+			}
+			if _, isPhi := dst.(*ssa.Phi); !isPhi && dst != val {
+				if di, ok := dst.(ssa.Instruction); ok && !after(di) {
+					continue
+				}
+			}
+			return fmt.Sprintf("%s into the storage of the delivered slice at %s (it is kept after the delivery at %s)", bi.Name(), fn.Prog.Fset.Position(c.Pos()), fn.Prog.Fset.Position(call.Pos()))
+		}
+	}
+	return ""
 }
